@@ -61,17 +61,17 @@ void h_dir_context(void)
 	dir_rsctx = nondet_bool() ? &g_rsctx : (struct rset *) 0;
 	int has_set = dir_rsctx != 0;
 	int r = dir_context(s);
-	__CPROVER_assert(r == +1 || r == -1, "dir_context: a direction");
+	H_ASSERT(r == +1 || r == -1, "dir_context: a direction");
 	if (xtd > 1)
-		__CPROVER_assert(r == +1 && DC.find_calls == 0, "dir_context: td=2 forces left-to-right, no pattern is consulted");
+		H_ASSERT(r == +1 && DC.find_calls == 0, "dir_context: td=2 forces left-to-right, no pattern is consulted");
 	else if (xtd < -1)
-		__CPROVER_assert(r == -1 && DC.find_calls == 0, "dir_context: td=-2 forces right-to-left, no pattern is consulted");
+		H_ASSERT(r == -1 && DC.find_calls == 0, "dir_context: td=-2 forces right-to-left, no pattern is consulted");
 	else if (xtd == 0 && !((unsigned char) s[0] & 0x80))
-		__CPROVER_assert(r == +1 && DC.find_calls == 0, "dir_context: td=0 and a line starting with an ASCII byte is left-to-right");
+		H_ASSERT(r == +1 && DC.find_calls == 0, "dir_context: td=0 and a line starting with an ASCII byte is left-to-right");
 	else if (has_set && DC.found >= 0 && DC.table_has)
-		__CPROVER_assert(r == DC.table_dir && DC.find_s == s, "dir_context: otherwise the first matching context pattern decides");
+		H_ASSERT(r == DC.table_dir && DC.find_s == s, "dir_context: otherwise the first matching context pattern decides");
 	else
-		__CPROVER_assert(r == (xtd < 0 ? -1 : +1), "dir_context: no pattern matches - td=-1 means right-to-left, td=0/+1 left-to-right");
+		H_ASSERT(r == (xtd < 0 ? -1 : +1), "dir_context: no pattern matches - td=-1 means right-to-left, td=0/+1 left-to-right");
 #ifdef CANARY
 	__CPROVER_assert(0, "canary");
 #endif
